@@ -68,10 +68,17 @@ class _RedisConsumer(ConsumerT):
         while self.queue.qsize() > 0:
             key, _, _ = self.queue.get_nowait()
             rejects.append(self.broker.reject(key))
+        # reject every other message related to this consumer which is still unsettled,
+        # e.g. one that was lost by a cancelled consume() call - it would stay marked as processing
+        for consumer, key in list(self.broker._unsettled.values()):
+            if consumer is self:
+                rejects.append(self.broker.reject(key))
         await asyncio.gather(*rejects)
 
     async def consume(self) -> tuple[RoutingKeyT, str, ParametersT]:
-        return await self.queue.get()
+        msg = await self.queue.get()
+        self.broker._unsettled[msg[0].id_] = (self, msg[0])
+        return msg
 
     async def backgroud_consume(self) -> None:
         while True:
